@@ -11,6 +11,9 @@ S: the property itself evaluated on the implementation's answers: decoded == enc
 import json, os, subprocess, sys
 from vplib import *
 
+import sys as _sys
+_sys.setrecursionlimit(100000)      # deep generated values (cons-lists of hundreds of elements) are printed and compared recursively
+
 PID = "C20"
 REFUSED = {"l": "Closure", "f": "Fixpoint", "x": "ExternalFn", "m": "Store", "k": "ConstructorFn"}
 
